@@ -163,6 +163,15 @@ pub fn exec(line: &str, model: &mut Model) -> Option<Exec> {
                         if shown != expect { e.oracle_fail = Some(format!("decoded content differs from what the peer encoded: {} vs {}", shown, expect)); }
                         else if crcok != Some(true) { e.oracle_fail = Some("conformant bundle with the peer's CRC values fails crc_valid".into()); }
                         else if !same { e.oracle_fail = Some("conformant bundle does not re-encode to the received bytes".into()); }
+                        // the same bundle behind semantic tags (RFC 8949 3.4; theorem C03.accepted_tagged): same content
+                        if e.oracle_fail.is_none() && line.len() % 4 == 1 {
+                            let tags: &[u8] = match line.len() % 5 { 0 => &[0xd9, 0xd9, 0xf7], 1 => &[0xd8, 0x18], 2 => &[0xc0], 3 => &[0xdb, 0, 0, 0, 0, 0, 0, 0, 1], _ => &[0xd9, 0xd9, 0xf7, 0xd8, 0x18, 0xc1] };
+                            let mut tb = tags.to_vec(); tb.extend_from_slice(&bytes);
+                            match no_panic(|| Bundle::try_from(tb.as_slice())) {
+                                Some(Ok(dt)) if show_bundle(&dt) == shown => {}
+                                other => e.oracle_fail = Some(format!("the same conformant bundle behind semantic tags {} is not decoded to the same content: {:?}", hex(tags), other.map(|r| r.map(|x| show_bundle(&x))))),
+                            }
+                        }
                     }
                 }
             }
